@@ -52,6 +52,7 @@ ASSIGN = {
 QUICK_ASSIGN = ("pow2", "signed", "primes", "halfpow", "base", "intx", "inty", "tiny")
 TOL = 1e-14
 HISTORY_ASSIGN = ("base", "primes", "halfpow", "signed", "intx")
+HISTORY_ASSIGN_QUICK = ("halfpow", "intx")
 
 
 def _ops():
@@ -109,20 +110,21 @@ def _patterns(tier):
 
 
 def units(tier, seed):
+    """one work unit = (length pattern, x arrangement, chunk of y arrangements); units run in fresh processes"""
     assigns = QUICK_ASSIGN if tier == "quick" else tuple(ASSIGN)
     out = []
-    arrs = list(S.arrangements(S.LETTERS[:4]))
+    arrs = ["".join(a) for a in S.arrangements(S.LETTERS[:4])]
     for pat in _patterns(tier):
         for lx in arrs:
-            for ly in arrs:
-                out.append(dict(pattern=pat, lx="".join(lx), ly="".join(ly), assigns=assigns))
+            for i in range(0, len(arrs), 22):
+                out.append(dict(pattern=pat, lx=lx, lys=arrs[i : i + 22], assigns=assigns))
     if tier == "thorough":  # five dimensions, every ordered pair of the 326 arrangements
-        arrs5 = list(S.arrangements(S.LETTERS[:5]))
+        arrs5 = ["".join(a) for a in S.arrangements(S.LETTERS[:5])]
         for pat in ("all2", "2323"):
             for lx in arrs5:
-                for ly in arrs5:
-                    if len(lx) == 5 or len(ly) == 5:
-                        out.append(dict(pattern=pat, lx="".join(lx), ly="".join(ly), assigns=QUICK_ASSIGN[:4]))
+                lys = [ly for ly in arrs5 if len(lx) == 5 or len(ly) == 5]
+                for i in range(0, len(lys), 60):
+                    out.append(dict(pattern=pat, lx=lx, lys=lys[i : i + 60], assigns=QUICK_ASSIGN[:4]))
     return out
 
 
@@ -208,29 +210,32 @@ def run_case(pattern, lx, ly, assign, opname, mode="fresh"):
 
 
 def run_unit(u):
-    pattern, lx, ly = u["pattern"], tuple(u["lx"]), tuple(u["ly"])
+    pattern, lx = u["pattern"], tuple(u["lx"])
     items = S.items_for(pattern)
-    nontriv_pair = any(len(items[l]) >= 2 for l in lx + ly)
     res = dict(evals=0, nontrivial=0, outcomes={}, fails=[], samples=[])
-    for assign in u["assigns"]:
-        groups = ASSIGN[assign][2]
-        for opname, (group, _, _, _) in OPS.items():
-            if group not in groups:
-                continue
-            if group in Y_INDEPENDENT and ly != ():
-                continue  # scalar / unary forms do not involve y: run them once per x arrangement
-            for mode in ("fresh", "history"):
-                if mode == "history" and assign not in HISTORY_ASSIGN:
+    for ly in u["lys"]:
+        ly = tuple(ly)
+        nontriv_pair = any(len(items[l]) >= 2 for l in lx + ly)
+        for assign in u["assigns"]:
+            groups = ASSIGN[assign][2]
+            for opname, (group, _, _, _) in OPS.items():
+                if group not in groups:
                     continue
-                oc, f = run_case(pattern, "".join(lx), "".join(ly), assign, opname, mode)
-                res["evals"] += 1
-                nt = nontriv_pair if group not in Y_INDEPENDENT else any(len(items[l]) >= 2 for l in lx)
-                res["nontrivial"] += 1 if nt else 0
-                res["outcomes"][oc + ("" if mode == "fresh" else " (with history)")] = res["outcomes"].get(oc + ("" if mode == "fresh" else " (with history)"), 0) + 1
-                if f:
-                    res["fails"].append(f)
-    if lx == ("b", "a") and ly == ("a", "c") and pattern == "all2":
-        res["samples"].append(dict(pattern=pattern, x_dims=lx, y_dims=ly, assignment=u["assigns"][0], op="x+y", meaning="result over ('a',) = marginal of x over b + marginal of y over c"))
+                if group in Y_INDEPENDENT and ly != ():
+                    continue  # scalar / unary forms do not involve y: run them once per x arrangement
+                for mode in ("fresh", "history"):
+                    if mode == "history" and assign not in (HISTORY_ASSIGN if len(u["assigns"]) > len(QUICK_ASSIGN) else HISTORY_ASSIGN_QUICK):
+                        continue
+                    oc, f = run_case(pattern, "".join(lx), "".join(ly), assign, opname, mode)
+                    res["evals"] += 1
+                    nt = nontriv_pair if group not in Y_INDEPENDENT else any(len(items[l]) >= 2 for l in lx)
+                    res["nontrivial"] += 1 if nt else 0
+                    key = oc + ("" if mode == "fresh" else " (with history)")
+                    res["outcomes"][key] = res["outcomes"].get(key, 0) + 1
+                    if f and len(res["fails"]) < 25:
+                        res["fails"].append(f)
+        if lx == ("b", "a") and ly == ("a", "c") and pattern == "all2":
+            res["samples"].append(dict(pattern=pattern, x_dims=lx, y_dims=ly, assignment=u["assigns"][0], op="x+y", meaning="result over ('a',) = marginal of x over b + marginal of y over c"))
     return res
 
 
